@@ -21,10 +21,12 @@
                                   values gen_index returned) iff mtry < p, then the first mtry entries;
                                   `fy_draws_ok k draws`: iteration i = k..1 receives a value <= i. *)
 From Coq Require Import List Arith ZArith Bool Reals Lra Lia Floats Permutation.
+From SC Require Import Base.FloatUtil Base.FloatError.
 From SC Require Import Base.Num C05.Model C05.ProofsGrow C05.ProofsReg C05.ProofsCls C06.Model
      C06.ProofsBoot C06.ProofsAgg C06.ProofsFit C06.ProofsRange C06.ProofsTie C06.ProofsTotal C06.ProofsInst C06.ProofsOob C06.ProofsE2E
-     C06.ProofsMtry C06.ProofsMtryCorr.
+     C06.ProofsMtry C06.ProofsMtryCorr C06.ProofsFloat.
 From SC Require C06.Corr.
+From SC Require C05.Corr C05.ProofsFloatFit C06.ProofsFloatFit.
 Import ListNotations.
 Local Open Scope nat_scope.
 
@@ -354,6 +356,170 @@ Theorem C06_oob_members_spec : forall Tr (trees : list Tr) (ss : list (list nat)
 Proof. exact @oob_members_by_count. Qed.
 
 (* ------------------------------------------------------------------------------------------ *)
+(* rounding theorems for the binary64 instance (C06/ProofsFloat.v)                             *)
+(* ------------------------------------------------------------------------------------------ *)
+(* classifier_votes_exact.  The aggregation of a classifier forest contains NO floating-point operation:
+   the vote counters are machine integers in the code (`vec![0usize; k]`, `+= 1`) and naturals in the
+   model.  (1) The forest's class index over binary64 is the function `vote_of_preds k` (k = number of
+   classes) of the member trees' own class indices `tree_classes FOps trees row` (None as soon as one
+   tree walk fails or one index is >= k: the panics), (2) which is the FIRST class index with the maximal
+   number of votes; (3) consequently a binary64 forest and a forest over the reals whose member trees
+   answer alike (and with as many classes) predict alike: binary64 and exact arithmetic can differ in a
+   forest's answer only if they already differ in some member tree's answer (the routing comparisons
+   `row[feature] <= threshold`, which for training rows C05_fit_classifier_float_partition describes). *)
+Theorem C06_classifier_votes_exact : forall (f : cforest PrimFloat.float) (row : list PrimFloat.float),
+  (cf_predict_for_row FOps f row =
+     match tree_classes FOps (cf_trees f) row with
+     | None => None
+     | Some preds => vote_of_preds (length (cf_classes f)) preds
+     end) /\
+  (forall c, cf_predict_for_row FOps f row = Some c -> 0 < length (cf_classes f) ->
+     exists preds, member_preds FOps (cf_trees f) row preds /\
+       Forall (fun c' => c' < length (cf_classes f)) preds /\ c < length (cf_classes f) /\
+       (forall c', count_occ Nat.eq_dec preds c' <= count_occ Nat.eq_dec preds c) /\
+       (forall c', c' < c -> count_occ Nat.eq_dec preds c' < count_occ Nat.eq_dec preds c)) /\
+  (forall (g : cforest R) (rowR : list R),
+     length (cf_classes f) = length (cf_classes g) ->
+     Forall2 (fun tf tg => predict_for_row FOps (ct_nodes tf) row = predict_for_row ROps (ct_nodes tg) rowR)
+             (cf_trees f) (cf_trees g) ->
+     cf_predict_for_row FOps f row = cf_predict_for_row ROps g rowR).
+Proof. exact classifier_votes_exact. Qed.
+
+(* the same statement for every number type at once, and the transfer between any two number types *)
+Theorem C06_votes_function_of_tree_classes : forall T (O : Ops T) (f : cforest T) row,
+  cf_predict_for_row O f row =
+  match tree_classes O (cf_trees f) row with
+  | None => None
+  | Some preds => vote_of_preds (length (cf_classes f)) preds
+  end.
+Proof. exact @cf_predict_for_row_votes. Qed.
+
+Theorem C06_votes_transfer : forall T1 T2 (O1 : Ops T1) (O2 : Ops T2) (f1 : cforest T1) (f2 : cforest T2) row1 row2,
+  length (cf_classes f1) = length (cf_classes f2) ->
+  Forall2 (fun t1 t2 => predict_for_row O1 (ct_nodes t1) row1 = predict_for_row O2 (ct_nodes t2) row2)
+          (cf_trees f1) (cf_trees f2) ->
+  cf_predict_for_row O1 f1 row1 = cf_predict_for_row O2 f2 row2.
+Proof. exact @cf_predict_transfer. Qed.
+
+(* regressor_mean_float_error.  The regressor's prediction over binary64 is
+   fl( fl(..fl(fl(0 + o_1) + o_2).. + o_n) / fl(n) ), o_t the member trees' outputs in tree order, n the
+   number of trees (converted exactly, n < 2^53).  IF THE PREDICTION IS FINITE then there is at least one
+   tree, every tree output is finite, and
+     |FR pred - (sum_t FR o_t)/n| <= ((1+u)^n - 1) * (sum_t |FR o_t|)/n + eta          (u = 2^-53, eta = 2^-1075)
+   (n-1 roundings of the recursive sum - the first addition 0 + o_1 is exact - and one of the division,
+   whose result may be subnormal); the real mean (sum_t FR o_t)/n is the value of the ROps model on every
+   forest over R whose member trees return the real numbers FR o_t. *)
+Theorem C06_regressor_mean_float_error : forall (f : rforest PrimFloat.float) (row : list PrimFloat.float) (v : PrimFloat.float),
+  rf_predict_for_row FOps f row = Some v -> ffin v ->
+  (Z.of_nat (length (rf_trees f)) < 2 ^ 53)%Z ->
+  exists outs : list PrimFloat.float,
+    member_vals FOps (rf_trees f) row outs /\
+    let n := length (rf_trees f) in
+    let o := map FR outs in
+    0 < n /\ length outs = n /\ Forall ffin outs /\
+    v = PrimFloat.div (fsum outs) (float_of_Z (Z.of_nat n)) /\
+    (Rabs (FR v - Rsuml o / INR n) <= ((1 + u64) ^ n - 1) * (Rsumabs o / INR n) + eta64)%R /\
+    (Rabs (FR v) <= (1 + u64) ^ n * (Rsumabs o / INR n) + eta64)%R /\
+    (forall (g : rforest R) (rowR : list R), member_vals ROps (rf_trees g) rowR o ->
+       rf_predict_for_row ROps g rowR = Some (Rsuml o / INR n)%R).
+Proof. exact regressor_mean_float_error. Qed.
+
+(* oob_float (classifier): the out-of-bag class index of training row i is the same integer vote over
+   the sub-forest of out-of-bag trees; when NO tree is out of bag all counters stay 0 and the model (like
+   the code) answers class index 0, i.e. the smallest label; transfer to exact arithmetic as above. *)
+Theorem C06_oob_float_classifier : forall (f : cforest PrimFloat.float) masks (row : list PrimFloat.float) i,
+  Forall (fun m => i < length m) masks ->
+  (cf_predict_for_row_oob FOps f masks row i =
+     match tree_classes FOps (oob_members (cf_trees f) masks i) row with
+     | None => None
+     | Some preds => vote_of_preds (length (cf_classes f)) preds
+     end) /\
+  (oob_members (cf_trees f) masks i = [] -> cf_predict_for_row_oob FOps f masks row i = Some 0) /\
+  (forall (g : cforest R) (rowR : list R),
+     length (cf_classes f) = length (cf_classes g) ->
+     Forall2 (fun tf tg => predict_for_row FOps (ct_nodes tf) row = predict_for_row ROps (ct_nodes tg) rowR)
+             (oob_members (cf_trees f) masks i) (cf_trees g) ->
+     cf_predict_for_row_oob FOps f masks row i = cf_predict_for_row ROps g rowR).
+Proof. exact classifier_oob_votes_exact. Qed.
+
+(* oob_float (regressor): a FINITE out-of-bag value of training row i certifies that at least one tree
+   is out of bag, and it is the rounded mean of the n <= n_trees out-of-bag trees' outputs with the same
+   bound (the counter n is a machine integer incremented in the loop and converted exactly) ... *)
+Theorem C06_oob_float_regressor : forall (f : rforest PrimFloat.float) masks (row : list PrimFloat.float) i (v : PrimFloat.float),
+  Forall (fun m => i < length m) masks ->
+  rf_predict_for_row_oob FOps f masks row i = Some v -> ffin v ->
+  (Z.of_nat (length (rf_trees f)) < 2 ^ 53)%Z ->
+  let members := oob_members (rf_trees f) masks i in
+  exists outs : list PrimFloat.float,
+    member_vals FOps members row outs /\
+    let n := length members in
+    let o := map FR outs in
+    0 < n <= length (rf_trees f) /\ length outs = n /\ Forall ffin outs /\
+    v = PrimFloat.div (fsum outs) (float_of_Z (Z.of_nat n)) /\
+    (Rabs (FR v - Rsuml o / INR n) <= ((1 + u64) ^ n - 1) * (Rsumabs o / INR n) + eta64)%R /\
+    (Rabs (FR v) <= (1 + u64) ^ n * (Rsumabs o / INR n) + eta64)%R /\
+    (forall (g : rforest R) (rowR : list R), member_vals ROps (rf_trees g) rowR o ->
+       rf_predict_for_row ROps g rowR = Some (Rsuml o / INR n)%R).
+Proof. exact regressor_oob_mean_float_error. Qed.
+
+(* ... and when no tree is out of bag the model (like the code) returns 0/0: a NaN, not an error *)
+Theorem C06_oob_float_regressor_no_member : forall (f : rforest PrimFloat.float) masks (row : list PrimFloat.float) i,
+  Forall (fun m => i < length m) masks ->
+  oob_members (rf_trees f) masks i = [] ->
+  exists v, rf_predict_for_row_oob FOps f masks row i = Some v /\ PrimFloat.is_nan v = true /\ ~ ffin v.
+Proof. exact regressor_oob_no_member_nan. Qed.
+
+(* a consequence, towards the binary64 form of regressor_within_target_range: if every (finite) member
+   tree output for the row lies in [lo, hi] (as real numbers) then a finite forest prediction lies in
+   [lo - E, hi + E] with E = ((1+u)^n - 1) * max(|lo|,|hi|) + eta: the float mean leaves the range of
+   the tree outputs by rounding only, by at most n ulp-sized steps relative to the range's magnitude.
+   (That the member trees' outputs lie in the range of the training targets over binary64 is NOT proved:
+   it needs the corresponding statement for C05's weighted node means.) *)
+Theorem C06_regressor_float_within_outputs_range :
+  forall (f : rforest PrimFloat.float) (row : list PrimFloat.float) (v : PrimFloat.float) (lo hi : R),
+  rf_predict_for_row FOps f row = Some v -> ffin v ->
+  (Z.of_nat (length (rf_trees f)) < 2 ^ 53)%Z ->
+  (forall tr o, In tr (rf_trees f) -> predict_for_row FOps (fst tr) row = Some o -> ffin o ->
+                (lo <= FR o <= hi)%R) ->
+  let n := length (rf_trees f) in
+  let E := (((1 + u64) ^ n - 1) * Rmax (Rabs lo) (Rabs hi) + eta64)%R in
+  (lo - E <= FR v <= hi + E)%R.
+Proof. exact regressor_float_within_outputs_range. Qed.
+
+(* C05_fit_*_float_partition carried to the member trees of a forest fitted in binary64 (bootstrap
+   counts s as weights, the oracle's features tried at each node): on finite data whose computed orders
+   pass the executable test orders_okb (evaluated in Coq by the correspondence on every whole-forest
+   case) and with tried features that are column indices (C06_recorded_features_valid), EVERY internal
+   node of EVERY member tree hands its children exactly the counted training rows that the exact test at
+   the real midpoint of two consecutive counted feature values sends them, when the rounded threshold is
+   below the larger value (`float_tree_partition`: C05_float_tree_partition_meaning).  With
+   C06_classifier_votes_exact: binary64 enters a classifier forest's answer only through these threshold
+   comparisons and the rounded gains of the split search, never through the aggregation. *)
+Theorem C06_member_trees_float_partition_regressor :
+  forall (x : list (list PrimFloat.float)) (y : list PrimFloat.float) n_trees oracle md msl mss keep f,
+  Forall (Forall ffin) x -> SC.C05.Corr.orders_okb x = true ->
+  (forall t id j, t < n_trees -> In j (snd (oracle t) id) -> j < length (hd [] x)) ->
+  fit_rforest FOps x y n_trees oracle md msl mss keep = Some f ->
+  forall t, t < n_trees ->
+  exists s nodes d,
+    nth_error (rf_trees f) t = Some (nodes, d) /\ length s = length x /\ sum_nat s = length x /\
+    (keep = true -> exists masks, rf_samples f = Some masks /\ nth_error masks t = Some (mask_of s)) /\
+    SC.C05.ProofsFloatFit.float_tree_partition 0%float x msl s nodes.
+Proof. exact SC.C06.ProofsFloatFit.rforest_members_float_partition. Qed.
+
+Theorem C06_member_trees_float_partition_classifier :
+  forall lg2 crit (x : list (list PrimFloat.float)) (y : list PrimFloat.float) n_trees oracle md msl mss keep f,
+  Forall (Forall ffin) x -> SC.C05.Corr.orders_okb x = true ->
+  (forall t id j, t < n_trees -> In j (snd (oracle t) id) -> j < length (hd [] x)) ->
+  fit_cforest FOps lg2 crit x y n_trees oracle md msl mss keep = Some f ->
+  forall t, t < n_trees ->
+  exists s classes nodes d,
+    nth_error (cf_trees f) t = Some (classes, nodes, d) /\ length s = length y /\
+    (keep = true -> exists masks, cf_samples f = Some masks /\ nth_error masks t = Some (mask_of s)) /\
+    SC.C05.ProofsFloatFit.float_tree_partition 0 x msl s nodes.
+Proof. exact SC.C06.ProofsFloatFit.cforest_members_float_partition. Qed.
+
+(* ------------------------------------------------------------------------------------------ *)
 (* extensions stated, not proved (covered by correspondence and search only)                   *)
 (* ------------------------------------------------------------------------------------------ *)
 (* the range clause for binary64: float means can leave the range by rounding only; stated with the
@@ -443,3 +609,123 @@ Example C06_oob_members_instance :
   oob_members [10; 20; 30] (map mask_of [[1; 0]; [0; 2]; [0; 1]]) 0 = [20; 30] /\
   map fst (filter (fun ts => nth 0 (snd ts) 0 =? 0) (combine [10; 20; 30] [[1; 0]; [0; 2]; [0; 1]])) = [20; 30].
 Proof. split; vm_compute; reflexivity. Qed.
+
+(* instances for the rounding theorems *)
+Definition ex_x7 : list (list PrimFloat.float) := [[1];[2];[6];[3];[7];[8];[4]]%float.
+Definition ex_masks : list (list bool) :=
+  [[true;true;true;false;false;true;true]; [true;true;true;true;true;false;false]; [true;true;true;true;true;true;true]].
+
+(* a fitted binary64 classifier forest: the three member trees answer 0,0,1 for the row [5]; the vote *)
+Example C06_votes_instance :
+  exists f,
+    fit_cforest FOps (fun p => p) Gini ex_x7 [-2;-2;17;-2;17;17;-2]%float 3 ex_oracle None 1 2 true = Some f /\
+    tree_classes FOps (cf_trees f) [5]%float = Some [0; 1; 0] /\
+    vote_of_preds (length (cf_classes f)) [0; 1; 0] = Some 0 /\
+    cf_predict_for_row FOps f [5]%float = Some 0 /\
+    cf_samples f = Some ex_masks /\
+    Forall (fun m => 3 < length m) ex_masks /\
+    tree_classes FOps (oob_members (cf_trees f) ex_masks 3) [3]%float = Some [0] /\
+    cf_predict_for_row_oob FOps f ex_masks [3]%float 3 = Some 0.
+Proof.
+  eexists. split; [vm_compute; reflexivity|].
+  repeat split; try (vm_compute; reflexivity). repeat constructor.
+Qed.
+
+(* leaf-only member trees: a binary64 forest and a forest over R that answer alike *)
+Definition leafF (c : nat) : ctree PrimFloat.float := ([1; 2]%float, [mkNode c 0 None None None None], 0).
+Definition leafR (c : nat) : ctree R := ([1; 2]%R, [mkNode c 0 None None None None], 0).
+Example C06_votes_transfer_instance :
+  let f := mkCF [leafF 1; leafF 0; leafF 1] [1; 2]%float None in
+  let g := mkCF [leafR 1; leafR 0; leafR 1] [1; 2]%R None in
+  length (cf_classes f) = length (cf_classes g) /\
+  Forall2 (fun tf tg => predict_for_row FOps (ct_nodes tf) [] = predict_for_row ROps (ct_nodes tg) [])
+          (cf_trees f) (cf_trees g) /\
+  cf_predict_for_row FOps f [] = Some 1 /\ cf_predict_for_row ROps g [] = Some 1.
+Proof.
+  cbv zeta. split; [reflexivity|]. split; [repeat constructor|]. split; [vm_compute; reflexivity|].
+  rewrite <- (C06_votes_transfer _ _ FOps ROps (mkCF [leafF 1; leafF 0; leafF 1] [1; 2]%float None) _ [] []).
+  - vm_compute. reflexivity.
+  - reflexivity.
+  - repeat constructor.
+Qed.
+
+(* a fitted binary64 regressor forest: the hypotheses of C06_regressor_mean_float_error (3 trees, finite
+   prediction), of C06_oob_float_regressor (training row 6 is held out by all three trees; the
+   out-of-bag value 8/3 is rounded) and of C06_oob_float_regressor_no_member (row 0 is in every
+   bootstrap sample: NaN) hold *)
+Definition ex_rmasks : list (list bool) :=
+  [[true;true;true;true;false;false;false]; [true;true;true;false;false;false;false]; [true;true;true;true;false;false;false]].
+Example C06_regressor_float_instance :
+  exists f v w z,
+    fit_rforest FOps ex_x7 [1;2;10;3;11;12;4]%float 3 ex_oracle None 1 2 true = Some f /\
+    rf_predict_for_row FOps f [5]%float = Some v /\ ffin v /\
+    (Z.of_nat (length (rf_trees f)) < 2 ^ 53)%Z /\
+    rf_samples f = Some ex_rmasks /\
+    Forall (fun m => 6 < length m) ex_rmasks /\
+    rf_predict_for_row_oob FOps f ex_rmasks [4]%float 6 = Some w /\ ffin w /\
+    w = 0x1.5555555555555p+1%float /\
+    length (oob_members (rf_trees f) ex_rmasks 6) = 3 /\
+    oob_members (rf_trees f) ex_rmasks 0 = [] /\
+    rf_predict_for_row_oob FOps f ex_rmasks [1]%float 0 = Some z /\ PrimFloat.is_nan z = true.
+Proof.
+  eexists. eexists. eexists. eexists. split; [vm_compute; reflexivity|].
+  repeat split; try (vm_compute; reflexivity). repeat constructor.
+Qed.
+
+(* leaf-only member trees with outputs 1, 2.5, 4: the theorem applied, including its ROps clause *)
+Definition rleafF (o : PrimFloat.float) : rtree PrimFloat.float := ([mkNode o 0 None None None None], 0).
+Definition rleafR (o : R) : rtree R := ([mkNode o 0 None None None None], 0).
+Example C06_regressor_mean_instance :
+  let f := mkRF [rleafF 1; rleafF 2.5; rleafF 4]%float None in
+  let g := mkRF [rleafR (FR 1); rleafR (FR 2.5); rleafR (FR 4)] None in
+  let o := [FR 1; FR 2.5; FR 4] in
+  rf_predict_for_row FOps f [] = Some 2.5%float /\ ffin 2.5%float /\
+  member_vals ROps (rf_trees g) [] o /\
+  rf_predict_for_row ROps g [] = Some (Rsuml o / INR 3)%R /\
+  (Rabs (FR 2.5 - Rsuml o / INR 3) <= ((1 + u64) ^ 3 - 1) * (Rsumabs o / INR 3) + eta64)%R.
+Proof.
+  cbv zeta.
+  assert (H : rf_predict_for_row FOps (mkRF [rleafF 1; rleafF 2.5; rleafF 4]%float None) [] = Some 2.5%float)
+    by (vm_compute; reflexivity).
+  assert (Hf : ffin 2.5%float) by reflexivity.
+  destruct (C06_regressor_mean_float_error _ _ _ H Hf) as (outs & M & _ & _ & _ & _ & B & _ & G).
+  { vm_compute. reflexivity. }
+  assert (E : outs = [1; 2.5; 4]%float).
+  { cbn [rf_trees] in M. inversion M as [|? o1 ? l1 H1 M1]; subst. inversion M1 as [|? o2 ? l2 H2 M2]; subst.
+    inversion M2 as [|? o3 ? l3 H3 M3]; subst. inversion M3; subst.
+    vm_compute in H1, H2, H3. congruence. }
+  subst outs. cbn [rf_trees length map] in B, G.
+  assert (Mg : member_vals ROps [rleafR (FR 1); rleafR (FR 2.5); rleafR (FR 4)] [] [FR 1; FR 2.5; FR 4])
+    by (repeat constructor).
+  split; [exact H|]. split; [exact Hf|]. split; [exact Mg|]. split; [|exact B].
+  exact (G (mkRF [rleafR (FR 1); rleafR (FR 2.5); rleafR (FR 4)] None) [] Mg).
+Qed.
+
+(* the hypotheses of C06_regressor_float_within_outputs_range on leaf-only trees with outputs 1, 2, 4 *)
+Example C06_regressor_float_range_instance :
+  let f := mkRF [rleafF 1; rleafF 2; rleafF 4]%float None in
+  exists v, rf_predict_for_row FOps f [] = Some v /\ ffin v /\
+    let E := (((1 + u64) ^ 3 - 1) * Rmax (Rabs 1) (Rabs 4) + eta64)%R in (1 - E <= FR v <= 4 + E)%R.
+Proof.
+  cbv zeta. eexists. split; [vm_compute; reflexivity|]. split; [reflexivity|].
+  refine (C06_regressor_float_within_outputs_range (mkRF [rleafF 1; rleafF 2; rleafF 4]%float None) [] _ 1%R 4%R _ _ _ _).
+  - vm_compute. reflexivity.
+  - reflexivity.
+  - vm_compute. reflexivity.
+  - assert (F1 : FR 1%float = 1%R) by (exact (proj2 (float_of_Z_exact 1 ltac:(lia)))).
+    assert (F2 : FR 2%float = 2%R) by (exact (proj2 (float_of_Z_exact 2 ltac:(lia)))).
+    assert (F4 : FR 4%float = 4%R) by (exact (proj2 (float_of_Z_exact 4 ltac:(lia)))).
+    intros tr o [<-|[<-|[<-|[]]]] Ho _; vm_compute in Ho; injection Ho as <-; rewrite ?F1, ?F2, ?F4; lra.
+Qed.
+
+(* the hypotheses of C06_member_trees_float_partition_* hold on the fitted forests above *)
+Example C06_member_trees_float_partition_instance :
+  Forall (Forall ffin) ex_x7 /\ SC.C05.Corr.orders_okb ex_x7 = true /\
+  (forall t id j, t < 3 -> In j (snd (ex_oracle t) id) -> j < length (hd [] ex_x7)) /\
+  (exists f, fit_rforest FOps ex_x7 [1;2;10;3;11;12;4]%float 3 ex_oracle None 1 2 true = Some f) /\
+  (exists f, fit_cforest FOps (fun p => p) Gini ex_x7 [-2;-2;17;-2;17;17;-2]%float 3 ex_oracle None 1 2 true = Some f).
+Proof.
+  split; [repeat constructor|]. split; [vm_compute; reflexivity|]. split.
+  - intros t id j _ [<-|[]]. cbn. lia.
+  - split; eexists; vm_compute; reflexivity.
+Qed.
